@@ -63,6 +63,9 @@ func builtinFunctionToString(call FunctionCall) Value {
 	}
 }
 
+// maxApplyArguments bounds the length of the array-like handed to Function.prototype.apply.
+const maxApplyArguments = 1 << 22
+
 func builtinFunctionApply(call FunctionCall) Value {
 	if !call.This.isCallable() {
 		panic(call.runtime.panicTypeError("Function.apply %q is not callable", call.This))
@@ -84,6 +87,11 @@ func builtinFunctionApply(call FunctionCall) Value {
 	arrayObject := argumentList.object()
 	thisObject := call.thisObject()
 	length := int64(toUint32(arrayObject.get(propertyLength)))
+	if length > maxApplyArguments {
+		// The argument list is materialised before the call: refuse what cannot be an argument list
+		// instead of asking the Go runtime for gigabytes (other engines throw RangeError as well).
+		panic(call.runtime.panicRangeError("Function.apply: too many arguments"))
+	}
 	valueArray := make([]Value, length)
 	for index := range length {
 		valueArray[index] = arrayObject.get(arrayIndexToString(index))
